@@ -32,4 +32,8 @@ def run(tier: str, seed: int):
     if tier != 'quick':
         x_cf, x_se, x_e3 = F.thorough_extras('C01')
         cfgs, serial, e3c = list(cfgs) + x_cf, list(serial) + x_se, list(e3c) + x_e3
+    # tasks whose result is None
+    cfgs = list(cfgs) + list(F.fam_none(3))
+    serial = list(serial) + list(F.fam_none(2))
+    e3c = list(e3c) + list(F.fam_e3(F.fam_none(2), workers=(2,), liveness=False))
     return run_e2_property('C01', tier, seed, cfgs, serial_configs=serial, e3_configs=e3c, hash_slices=([('shapes3', 1), ('shapes3', 2)] if tier == 'quick' else [('shapes3', 1), ('shapes3', 2), ('shapes3', 3), ('shapes4', 1), ('shapes4', 2)]), real_cases=list(F.fam_real(F.real_bases('plain'), workers=(1, 2))), rule=rule, assumptions=ASSUME)
